@@ -123,6 +123,23 @@ def inScope (cfg : WireCfg) (r : Request) : Bool :=
             | _ => false
           | none => false
 
+/-- wrong member types inside an otherwise well-formed request to the built-in interface:
+    `GetInterfaceDescription` whose `parameters` are present but carry no string `interface`
+    (object form) and are not a one-element array of a string -/
+def illTypedBuiltin (r : Request) : Bool :=
+  r.method == "org.varlink.service.GetInterfaceDescription" &&
+    match r.parameters with
+    | none => false
+    | some (.obj l) => (match Json.lookup "interface" l with | some (.str _) => false | _ => true)
+    | some (.arr [.str _]) => false
+    | some _ => true
+
+/-- requests answered by the library itself (built-in interface, unknown interface, no dot) -/
+def librarySide (cfg : WireCfg) (r : Request) : Bool :=
+  match ifacePart r.method with
+  | none => true
+  | some i => i == svcName || (lastRegistered cfg i).isNone
+
 /-! #### P_C01 -/
 
 /-- walk requests and groups together -/
@@ -148,6 +165,13 @@ def matchGroups (closed : Bool) : List Frame → List (List Reply) → Verdict
 def P_C01 (cfg : WireCfg) (fs : List Frame) (o : WireObs) : Verdict :=
   if o.panicked then some "panic" else
   if o.rawOut then some "unparsable-output" else
+  -- a stream of well-formed requests that the library answers itself never ends in an error: every one of them
+  -- is answered and the connection stays open until the peer is done
+  let allLibrary := fs.all fun f => match f with
+    | .req r => librarySide cfg r && !illTypedBuiltin r
+    | .bad => false
+  if allLibrary && o.status != .eof then
+    some "connection-ended-with-an-error-although-every-message-was-well-formed" else
   let inScopeAll := fs.all fun f => match f with | .req r => inScope cfg r | .bad => true
   if !inScopeAll then none else
   let (gs, partialTail) := groupReplies o.out []
@@ -167,13 +191,10 @@ def P_C04 (cfg : WireCfg) (fs : List Frame) (o : WireObs) : Verdict :=
   -- requests answered by the library itself (built-in interface, unknown interface, no dot) get at most one
   -- reply each whatever their flags: when every non-oneway request of the case is of that kind, any further
   -- reply can only belong to a oneway request (whatever its method implementation does)
-  let librarySide (r : Request) : Bool := match ifacePart r.method with
-    | none => true
-    | some i => i == svcName || (lastRegistered cfg i).isNone
   let nonOnewayReqs := fs.filterMap fun f => match f with
     | .req r => if isOneway r then none else some r
     | .bad => none
-  if !o.rawOut && nonOnewayReqs.all librarySide && o.out.length > nonOnewayReqs.length then
+  if !o.rawOut && nonOnewayReqs.all (librarySide cfg) && o.out.length > nonOnewayReqs.length then
     some "reply-to-oneway-request (more replies than the non-oneway requests can have)" else
   -- counting needs every method implementation of the case to be proper
   let inScopeAll := fs.all fun f => match f with | .req r => inScope cfg r | .bad => true
@@ -354,17 +375,6 @@ def P_C03 (cfg : WireCfg) (fs : List Frame) (o : WireObs) : Verdict :=
     firstSome <| (pairGroups inScopePrefix gs).map fun (r, g) => checkRouting cfg r g
 
 /-! #### P_C06 -/
-
-/-- wrong member types inside an otherwise well-formed request to the built-in interface:
-    `GetInterfaceDescription` whose `parameters` are present but carry no string `interface`
-    (object form) and are not a one-element array of a string -/
-def illTypedBuiltin (r : Request) : Bool :=
-  r.method == "org.varlink.service.GetInterfaceDescription" &&
-    match r.parameters with
-    | none => false
-    | some (.obj l) => (match Json.lookup "interface" l with | some (.str _) => false | _ => true)
-    | some (.arr [.str _]) => false
-    | some _ => true
 
 def isMalformedFrame : Frame → Bool
   | .bad => true
